@@ -164,7 +164,10 @@ def order_specs(ctx, rng):
                 ep.scan(mpath=d, ext=True)
         ep.scan()
         ep.scan(ext=True)
-        ep.scan(limit=1)
+        for k in (1, 2, 3):
+            ep.scan(limit=k)
+        if subs:
+            ep.scan(mpath=subs[0], limit=1)
         a = ep.spec
         b = dict(a, items=list(reversed(a["items"])))
         out.append((a, b))
